@@ -263,6 +263,7 @@ func smallQinQ() Adapter {
 		{0, 100, 2},  // single-tagged: no outer tag
 		{99, 100, 2}, // outer tag outside the allowed ranges, inner inside
 		{10, 999, 0}, // inner tag outside the range
+		{0, 999, 0},  // single-tagged AND the inner tag outside the range
 	}
 	return qinqAdapter("s10-11.c100-101", pairs, []int{1, 2, 3, 4, 5}, 3)
 }
